@@ -343,6 +343,18 @@ def run(prog: Program) -> Results:
     pv = [d for d in ast.walk(fnv) if isinstance(d, ast.Assign) and isinstance(d.value, ast.Call) and callee(d.value) == "parse"
           and d.value.args and isinstance(d.value.args[0], ast.Name) and d.value.args[0].id == value_param]
     if len(pv) != 1 or not isinstance(pv[0].targets[0], ast.Name):
+        # the value is parsed, but not as given: any rewriting (strip, slice, normalise) lets text through that is not one expression
+        rewritten = [d for d in ast.walk(fnv) if isinstance(d, ast.Call) and callee(d) == "parse" and d.args
+                     and not (isinstance(d.args[0], ast.Name) and d.args[0].id == value_param)
+                     and any(isinstance(x, ast.Name) and x.id == value_param for x in ast.walk(d.args[0]))]
+        if rewritten:
+            r3.instances += 1
+            r3.ob(False, {"value_parse": norm(rewritten[0])[:60]})
+            res.add("R-C07-3", ("set_value", "value rewritten before it is validated"), sv.loc(rewritten[0]),
+                    f"set_value parses `{norm(rewritten[0].args[0])[:50]}` instead of the value as given: what the rewrite removes (e.g. "
+                    f"str.strip() also removes U+00A0, U+2028, U+3000 …, which Nix does not treat as blanks) is no longer checked, so a "
+                    f"value that is not exactly one well-formed expression is accepted")
+            return res
         raise AnalysisError("set_value: `parsed = parse(value)` not found")
     pvar = pv[0].targets[0].id
     uses = []  # first extraction of the expression
